@@ -183,6 +183,11 @@ func (t *TabularGraph) GetTimestamp() string {
 	return "NA"
 }
 
+// rowFound tells a row from the "not found" answer of a table server (no id, no data)
+func rowFound(r *Row) bool {
+	return r != nil && (r.Id != "" || r.Data != nil)
+}
+
 func (t *TabularGraph) getRow(source, collection, id string) *Row {
 	c := make(chan *RowRequest, 1)
 	c <- &RowRequest{Id: id, RequestID: 0}
@@ -190,7 +195,9 @@ func (t *TabularGraph) getRow(source, collection, id string) *Row {
 	var row *Row
 	if rowChan, err := t.client.GetRowsByID(context.Background(), source, collection, c); err == nil {
 		for i := range rowChan {
-			row = i
+			if rowFound(i) {
+				row = i
+			}
 		}
 	} else {
 		log.Errorf("Row not read: %s", err)
@@ -210,7 +217,9 @@ func (t *TabularGraph) GetVertex(key string, load bool) *gdbi.Vertex {
 			if rowChan, err := t.client.GetRowsByID(context.Background(), v.config.Data.Source, v.config.Data.Collection, c); err == nil {
 				var row *Row
 				for i := range rowChan {
-					row = i
+					if rowFound(i) {
+						row = i
+					}
 				}
 				if row != nil {
 					o := gdbi.Vertex{ID: v.prefix + row.Id, Label: v.config.Label, Data: row.Data.AsMap(), Loaded: true}
@@ -432,7 +441,11 @@ func rowRequestVertexPipeline(ctx context.Context, prefix string,
 		go func() {
 			defer close(out)
 			for r := range rowChan {
-				o := gdbi.Vertex{ID: prefix + r.Id, Label: label, Data: r.Data.AsMap(), Loaded: true}
+				o := &gdbi.Vertex{ID: prefix + r.Id, Label: label, Data: r.Data.AsMap(), Loaded: true}
+				if !rowFound(r) {
+					//still answered, so that the multiplexer stays in step with its requests
+					o = nil
+				}
 				reqSync.Lock()
 				outReq, ok := reqMap[r.RequestID]
 				if !ok {
@@ -440,7 +453,7 @@ func rowRequestVertexPipeline(ctx context.Context, prefix string,
 				}
 				delete(reqMap, r.RequestID)
 				reqSync.Unlock()
-				outReq.Vertex = &o
+				outReq.Vertex = o
 				out <- outReq
 			}
 		}()
@@ -462,7 +475,9 @@ func (t *TabularGraph) GetVertexChannel(ctx context.Context, req chan gdbi.Eleme
 		defer close(out)
 		for o := range mout {
 			if oe, ok := o.(gdbi.ElementLookup); ok {
-				out <- oe
+				if oe.Vertex != nil || oe.IsSignal() {
+					out <- oe
+				}
 			}
 		}
 		wg.Done()
